@@ -86,7 +86,7 @@ class FnItem:
 
 
 UNIT = Agg((), "tuple")
-VARIANTS = {"Option": ["None", "Some"], "Result": ["Ok", "Err"]}
+VARIANTS = {"Option": ["None", "Some"], "Result": ["Ok", "Err"], "ControlFlow": ["Continue", "Break"]}
 
 
 def sc_int(v, ty):
@@ -152,9 +152,11 @@ class Program:
 
     def __init__(self, repo="/repo"):
         self.repo = repo
-        self.fns = {}       # name -> Fn (runtime bodies)
+        self.fns = {}       # name -> Fn (runtime bodies); first dump loaded wins on clashes, see crate_fns
         self.consts = {}    # name -> (value, ty) scalar consts
         self.cbody = {}     # name -> Fn (const items with a body)
+        self.crate_fns = {}     # crate -> {name -> Fn}: rustc trims paths per crate, so names are only unique per dump
+        self.crate_consts = {}  # crate -> {name -> (value, ty) | Fn}
         self.impls = {}     # (file, line, col) -> header dict
         self._src = {}
         self._impl_index = None
@@ -164,6 +166,8 @@ class Program:
         bb = None
         skip_next_fn = False
         in_alloc = False
+        cf = self.crate_fns.setdefault(crate, {})
+        cc = self.crate_consts.setdefault(crate, {})
         with open(path) as f:
             for line in f:
                 line = line.rstrip("\n")
@@ -188,19 +192,22 @@ class Program:
                         mm = re.match(r"^(.+?) = const (-?\d+)_(\w+);$", tail)
                         if mm:
                             self.consts.setdefault(cname, (int(mm.group(2)), mm.group(3)))
+                            cc.setdefault(cname, (int(mm.group(2)), mm.group(3)))
                             continue
                         mm = re.match(r"^(.+?) = const (true|false);$", tail)
                         if mm:
                             self.consts.setdefault(cname, (mm.group(2) == "true", "bool"))
+                            cc.setdefault(cname, (mm.group(2) == "true", "bool"))
                             continue
                         mm = re.match(r"^(.+) = \{$", tail)
                         if mm:
                             fn = Fn(cname, [], mm.group(1).strip(), crate)
                             fn.is_const = True
-                            if cname in self.cbody:
+                            if cname in cc:
                                 fn = Fn("__dup__", [], "", crate)
                             else:
-                                self.cbody[cname] = fn
+                                cc[cname] = fn
+                                self.cbody.setdefault(cname, fn)
                             cur, bb = fn, None
                         continue
                     m = re.match(r"^(?:const )?fn (.+?)\((.*)\) -> (.+) \{$", line)
@@ -214,11 +221,12 @@ class Program:
                         fn = Fn(name, params, m.group(3).strip(), crate)
                         for pn, pt in params:
                             fn.locals[pn] = pt
-                        if skip_next_fn or name in self.fns:
+                        if skip_next_fn or name in cf:
                             skip_next_fn = False
                             fn.name = "__dup__"
                         else:
-                            self.fns[name] = fn
+                            cf[name] = fn
+                            self.fns.setdefault(name, fn)
                         cur, bb = fn, None
                         continue
                     continue
@@ -239,6 +247,30 @@ class Program:
                     cur.blocks[bb].append(s)
         self._impl_index = None
         return self
+
+    def fn(self, name, crate=None):
+        """function by printed name, looked up in `crate`'s dump first"""
+        if crate and name in self.crate_fns.get(crate, {}):
+            return self.crate_fns[crate][name]
+        return self.fns.get(name)
+
+    def lookup_const(self, path, crate=None):
+        """const item by the path printed at a USE site (uses print full paths, definitions trimmed ones):
+        exact name, else the unique longest definition name that is a `::`-suffix of the path. -> (name, crate) | None"""
+        order = ([crate] if crate else []) + [c for c in self.crate_consts if c != crate]
+        for c in order:
+            tab = self.crate_consts.get(c, {})
+            if path in tab:
+                return path, c
+        for c in order:
+            tab = self.crate_consts.get(c, {})
+            cands = [n for n in tab if path.endswith("::" + n)]
+            if cands:
+                best = max(cands, key=len)
+                if sum(1 for n in cands if len(n) == len(best)) == 1:
+                    return best, c
+                raise NotEncodable("ambiguous const " + path)
+        return None
 
     # ---- impl headers ------------------------------------------------------------------------------
     def _source_line(self, file, line):
@@ -266,9 +298,28 @@ class Program:
         text = src[c1 - 1:c2 - 1] if l1 == l2 else src[c1 - 1:]
         fm = re.search(r"field/(f62|f64|f128)/", file)
         h = {"file": file, "field": fm.group(1) if fm else None, "method": meth, "text": text, "trait": None, "targs": None, "type": None}
-        mm = re.match(r"^(?:unsafe )?impl(?:<[^>]*>)?\s+(?:(.+?)\s+for\s+)?(.+?)\s*\{?\s*$", text)
+        mm = None
+        t2 = text.strip()
+        if t2.startswith("unsafe "):
+            t2 = t2[7:].strip()
+        if t2.startswith("impl"):
+            rest = t2[4:].lstrip()
+            if rest.startswith("<"):
+                d = 0
+                for i, ch in enumerate(rest):
+                    if ch == "<":
+                        d += 1
+                    elif ch == ">":
+                        d -= 1
+                        if d == 0:
+                            rest = rest[i + 1:].strip()
+                            break
+            rest = re.sub(r"\s*\{?\s*$", "", rest)
+            rest = re.split(r"\s+where\s+", rest)[0]
+            k = top_find(rest, " for ")
+            mm = (rest[:k].strip(), rest[k + 5:].strip()) if k >= 0 else (None, rest.strip())
         if mm:
-            tr, ty = mm.group(1), mm.group(2)
+            tr, ty = mm
             if tr:
                 tm = re.match(r"^([\w:]+?)(?:<(.*)>)?$", tr.strip())
                 h["trait"] = tm.group(1).split("::")[-1] if tm else tr
@@ -477,76 +528,79 @@ class Executor:
             self.encoded.append(name)
 
     # ---- top level ----------------------------------------------------------------------------------
-    def call_fn(self, name, args, pc=()):
+    def call_fn(self, name, args, pc=(), crate=None):
         """execute function `name` (exact MIR name) on argument values. returns the (merged) return value.
         No-panic obligations accumulate in self.obligations."""
-        if name not in self.prog.fns:
+        fn = self.prog.fn(name, crate)
+        if fn is None:
             raise NotEncodable("no MIR body for " + name)
         st = State([], pc)
-        st, ret = self._invoke(st, self.prog.fns[name], args, {}, [])
+        st, ret = self._invoke(st, fn, args, {}, [])
         if st is None:
             raise NotEncodable(f"{name}: every path panics")
         self.final_pc = st.pc
         return ret
 
-    def eval_const(self, name):
-        """evaluate a const item with a body (e.g. <impl ..>::ZERO) on the real MIR"""
-        if name in self._cache:
-            return self._cache[name]
-        if name in self.prog.consts:
-            v, ty = self.prog.consts[name]
+    def eval_const(self, name, crate=None):
+        """evaluate a const item (scalar, or with a body such as <impl ..>::ZERO = new(0)) on the real MIR"""
+        hit = self.prog.lookup_const(name, crate)
+        if hit is None:
+            raise NotEncodable("unknown const " + name)
+        name, crate = hit
+        if (crate, name) in self._cache:
+            return self._cache[(crate, name)]
+        item = self.prog.crate_consts[crate][name]
+        if isinstance(item, tuple):
+            v, ty = item
             r = sc_bool(v) if ty == "bool" else sc_int(v, ty)
-        elif name in self.prog.cbody:
+        else:
             st = State([], ())
-            st, r = self._invoke(st, self.prog.cbody[name], [], {}, [])
+            st, r = self._invoke(st, item, [], {}, [])
             if st is None:
                 raise NotEncodable("const " + name + " panics")
-        else:
-            raise NotEncodable("unknown const " + name)
-        self._cache[name] = r
+        self._cache[(crate, name)] = r
         return r
 
-    # ---- invocation with merge at return ---------------------------------------------------------------
-    def _invoke(self, st, fn, args, subst, gargs):
-        if len(st.frames) > 60:
-            raise NotEncodable("call depth")
-        if len(args) != len(fn.params):
-            raise NotEncodable(f"{fn.name}: arity {len(args)} vs {len(fn.params)}")
-        self.note_fn(fn.name)
-        env = {pn: a for (pn, _), a in zip(fn.params, args)}
-        base_pc = st.pc
-        depth = len(st.frames)
-        st = State([f for f in st.frames] + [Frame(fn, env, subst, gargs)], st.pc)
-        work = [(st, "bb0", {})]
-        done = []
-        while work:
-            s, bb, visits = work.pop()
-            outs = self._run_path(s, bb, visits, depth)
-            for kind, s2, x, v2 in outs:
-                if kind == "ret":
-                    done.append((s2, x))
-                else:
-                    work.append((s2, x, v2))
-        if not done:
-            return None, None
-        # merge
-        if len(done) == 1:
-            s, r = done[0]
-            return State(s.frames[:depth], s.pc), r
-        k = len(base_pc)
-        # common prefix of path conditions
-        common = list(done[0][0].pc)
-        for s, _ in done[1:]:
+    # ---- invocation: blocks are scheduled in reverse post-order and states meeting at a block are merged -------------
+    def _rpo(self, fn):
+        if hasattr(fn, "_rpo"):
+            return fn._rpo
+        succ = {}
+        for bb, stmts in fn.blocks.items():
+            term = stmts[-1] if stmts else ""
+            succ[bb] = re.findall(r"\bbb\d+\b", term.split(" -> ", 1)[1]) if " -> " in term else []
+        order, seen = [], set()
+        stack = [("bb0", iter(succ.get("bb0", [])))]
+        seen.add("bb0")
+        while stack:
+            node, it = stack[-1]
+            nxt = next(it, None)
+            if nxt is None:
+                order.append(node)
+                stack.pop()
+            elif nxt not in seen and nxt in succ:
+                seen.add(nxt)
+                stack.append((nxt, iter(succ[nxt])))
+        fn._rpo = {bb: i for i, bb in enumerate(reversed(order))}
+        return fn._rpo
+
+    def _merge(self, items, nframes, rets=None):
+        """items: list of (State, visits). merges the first `nframes` frames. -> (State, visits, merged ret)"""
+        if len(items) == 1:
+            s, v = items[0]
+            return State(s.frames[:nframes], s.pc), v, (rets[0] if rets else None)
+        common = list(items[0][0].pc)
+        for s, _ in items[1:]:
             j = 0
             while j < len(common) and j < len(s.pc) and common[j] is s.pc[j]:
                 j += 1
             common = common[:j]
         k = len(common)
-        guards = [S.And(*s.pc[k:]) for s, _ in done]
-        ret = merge_values(guards, [r for _, r in done])
+        guards = [S.And(*s.pc[k:]) for s, _ in items]
+        ret = merge_values(guards, rets) if rets else None
         frames = []
-        for d in range(depth):
-            envs = [s.frames[d].env for s, _ in done]
+        for d in range(nframes):
+            envs = [s.frames[d].env for s, _ in items]
             keys = set(envs[0])
             for e in envs[1:]:
                 keys &= set(e)
@@ -559,53 +613,78 @@ class Executor:
                     try:
                         new[key] = merge_values(guards, vals)
                     except NotEncodable:
-                        pass    # a dead temporary that differs: reading it later fails loudly (KeyError -> NotEncodable)
-            f0 = done[0][0].frames[d]
+                        pass    # a dead temporary that differs: reading it later fails loudly (NotEncodable)
+            f0 = items[0][0].frames[d]
             frames.append(Frame(f0.fn, new, f0.subst, f0.gargs))
         rest = S.Or(*guards)
         pc = tuple(common) + (() if rest is S.TRUE else (rest,))
-        return State(frames, pc), ret
+        visits = {}
+        for _, v in items:
+            for bb, n in v.items():
+                visits[bb] = max(visits.get(bb, 0), n)
+        return State(frames, pc), visits, ret
 
-    # ---- one path until return or fork ------------------------------------------------------------------
-    def _run_path(self, st, bb, visits, depth):
-        fr = st.frames[depth]
-        fn = fr.fn
-        while True:
-            self.fuel -= 1
-            if self.fuel <= 0:
-                raise NotEncodable("fuel exhausted (loop?)")
-            visits[bb] = visits.get(bb, 0) + 1
-            if bb not in fn.blocks:
-                raise NotEncodable(f"{fn.name}: no block {bb}")
-            stmts = fn.blocks[bb]
-            nxt = None
-            for st_txt in stmts:
-                r = self._stmt(st, depth, st_txt, bb, visits)
-                if r is None:
-                    continue
-                kind = r[0]
-                if kind == "goto":
-                    nxt = r[1]
-                    break
-                if kind == "ret":
-                    return [("ret", st, r[1], None)]
-                if kind == "dead":
-                    return []
-                if kind == "fork":
-                    outs = []
-                    for cond, tgt in r[1]:
-                        s2 = st.copy()
-                        s2.pc = s2.pc + (cond,)
-                        outs.append(("go", s2, tgt, dict(visits)))
-                    return outs
-                if kind == "state":     # a call returned a new state object
-                    st = r[1]
-                    nxt = r[2]
-                    break
-                raise AssertionError(kind)
-            else:
-                raise NotEncodable(f"{fn.name}: fell off {bb}")
-            bb = nxt
+    def _invoke(self, st, fn, args, subst, gargs):
+        if len(st.frames) > 60:
+            raise NotEncodable("call depth")
+        if len(args) != len(fn.params):
+            raise NotEncodable(f"{fn.name}: arity {len(args)} vs {len(fn.params)}")
+        self.note_fn(fn.name)
+        env = {pn: a for (pn, _), a in zip(fn.params, args)}
+        depth = len(st.frames)
+        st = State([f for f in st.frames] + [Frame(fn, env, subst, gargs)], st.pc)
+        order = self._rpo(fn)
+        pending = {"bb0": [(st, {})]}
+        done = []
+        while pending:
+            bb = min(pending, key=lambda b: order.get(b, 1 << 30))
+            items = pending.pop(bb)
+            if len(items) > 1:
+                s, v, _ = self._merge(items, depth + 1)
+                items = [(s, v)]
+            for s, visits in items:
+                for kind, s2, x, v2 in self._run_block(s, bb, visits, depth):
+                    if kind == "ret":
+                        done.append(((s2, v2), x))
+                    else:
+                        pending.setdefault(x, []).append((s2, v2))
+        if not done:
+            return None, None
+        s, _, ret = self._merge([d[0] for d in done], depth, [d[1] for d in done])
+        return s, ret
+
+    def _run_block(self, st, bb, visits, depth):
+        """execute one basic block. -> list of ('go', state, next bb, visits) / ('ret', state, value, visits)"""
+        fn = st.frames[depth].fn
+        self.fuel -= 1
+        if self.fuel <= 0:
+            raise NotEncodable("fuel exhausted (loop?)")
+        visits = dict(visits)
+        visits[bb] = visits.get(bb, 0) + 1
+        if bb not in fn.blocks:
+            raise NotEncodable(f"{fn.name}: no block {bb}")
+        for st_txt in fn.blocks[bb]:
+            r = self._stmt(st, depth, st_txt, bb, visits)
+            if r is None:
+                continue
+            kind = r[0]
+            if kind == "goto":
+                return [("go", st, r[1], visits)]
+            if kind == "ret":
+                return [("ret", st, r[1], visits)]
+            if kind == "dead":
+                return []
+            if kind == "fork":
+                outs = []
+                for cond, tgt in r[1]:
+                    s2 = st.copy()
+                    s2.pc = s2.pc + (cond,)
+                    outs.append(("go", s2, tgt, visits))
+                return outs
+            if kind == "state":     # a call returned a new state object
+                return [("go", r[1], r[2], visits)]
+            raise AssertionError(kind)
+        raise NotEncodable(f"{fn.name}: fell off {bb}")
 
     # ---- statements ---------------------------------------------------------------------------------------
     def _stmt(self, st, depth, s, bb, visits):
@@ -780,6 +859,8 @@ class Executor:
             return v
         if s.startswith("const "):
             return self._const(st, depth, s[6:].strip())
+        if re.match(r"^[A-Za-z<][\w:<>, \[\];&'()+-]*$", s) and not s.startswith("_"):
+            return FnItem(s)     # a function item used as a value (zero-sized)
         raise NotEncodable("operand " + s)
 
     def _const(self, st, depth, c):
@@ -799,6 +880,10 @@ class Executor:
             return sc_int((1 << n) - 1 if m.group(2) == "MAX" else 0, ty)
         if c.startswith(('b"', '"')):
             return Opaque("string literal")
+        if c.startswith("ZeroSized: "):
+            return Opaque("zero-sized value " + c[11:40])
+        if "::promoted[" in c:
+            return Opaque("promoted constant (only used by message formatting)")
         for k, v in fr.subst.items():
             c = re.sub(r"(?<![\w:])" + re.escape(k) + r"(?![\w])", v, c)
         if re.match(r"^[A-Z]\w*$", c):        # const generic parameter
@@ -836,15 +921,8 @@ class Executor:
             if name is None:
                 raise NotEncodable("associated const " + c)
             return self.eval_const(name)
-        if c in self.prog.consts or c in self.prog.cbody:
-            return self.eval_const(c)
-        # uses print the full path, definitions the trimmed one: unique `::`-suffix match
-        cands = [n for n in list(self.prog.consts) + list(self.prog.cbody) if c.endswith("::" + n)]
-        if cands:
-            best = max(cands, key=len)
-            if sum(1 for n in cands if len(n) == len(best)) == 1:
-                return self.eval_const(best)
-            raise NotEncodable("ambiguous const " + c)
+        if self.prog.lookup_const(c, fr.fn.crate) is not None:
+            return self.eval_const(c, fr.fn.crate)
         # fn items used as values
         if re.match(r"^[\w:<>, ]+$", c) and ("::" in c):
             return FnItem(c)
@@ -900,6 +978,8 @@ class Executor:
                 raise NotEncodable("raw pointer")
             fi, local, projs = self._resolve(st, depth, mm.group(1))
             return Ref(fi, local, projs)
+        if r.startswith("no_retag "):
+            r = r[9:]
         if r.startswith(("copy ", "move ", "const ")):
             return self._operand(st, depth, r)
         if r.startswith("[") and r.endswith("]"):
@@ -935,7 +1015,11 @@ class Executor:
         segs = p.split("::")
         last = segs[-1]
         if len(segs) >= 2 and segs[-2] in VARIANTS and last in VARIANTS[segs[-2]]:
+            if last == "Err":
+                args = [Opaque("error payload")]      # error contents (formatted strings) are not modelled
             return Enum([(S.TRUE, last, tuple(args))], segs[-2])
+        if last in ("InvalidValue", "UnknownError", "UnexpectedEOF"):
+            return Opaque("error value " + last)
         if len(segs) >= 2 and segs[-2] in ("DeserializationError",):
             return Opaque("error value " + last)
         if last == "BaseElement" and self.mode in ("ring", "exponent") and field_of(path + "::") == self.field:
@@ -1009,9 +1093,9 @@ class Executor:
 
     def mul(self, a, b, ty):
         """wrapping product; with abstract_products a symbolic x symbolic widening product becomes a fresh variable"""
-        if self.abstract_products and not S.isconst(a) and not S.isconst(b) and a.op == "zext" and b.op == "zext":
+        if self.abstract_products and not S.isconst(a) and not S.isconst(b):
             n = a.sort[1]
-            wa, wb = a.args[0].sort[1], b.args[0].sort[1]
+            wa, wb = eff_width(a), eff_width(b)
             if wa + wb <= n:
                 for pa, pb, pv, _ in self.products:
                     if (pa is a and pb is b) or (pa is b and pb is a):
@@ -1049,8 +1133,8 @@ class Executor:
                 w = S.bvmul(S.sext(a, 2 * n), S.sext(b, 2 * n))
                 ovf = S.Not(S.And(S.sle(S.bvc(2 * n, -(1 << (n - 1))), w), S.sle(w, S.bvc(2 * n, (1 << (n - 1)) - 1))))
             else:
-                if a.op == "zext" and b.op == "zext" and a.args[0].sort[1] + b.args[0].sort[1] <= n:
-                    return res, S.FALSE   # widening multiplication: exact by construction (bit widths add up)
+                if eff_width(a) + eff_width(b) <= n:
+                    return res, S.FALSE   # widening multiplication: exact by construction (operand bit widths add up to <= n)
                 if S.isconst(b) and b.p < 2: return res, S.FALSE
                 if S.isconst(a) and a.p < 2: return res, S.FALSE
                 w = S.bvmul(S.zext(a, 2 * n), S.zext(b, 2 * n))
@@ -1102,7 +1186,8 @@ class Executor:
         r = self.native(st, depth, func, args)
         if r is not None:
             return r
-        target, subst, gargs = self.resolve(func, args, fr)
+        fn, subst, gargs = self.resolve(func, args, fr)
+        target = fn.name
         # abstraction hooks are keyed on the *resolved* target
         h = self.prog.impl_header(target) if "<impl at " in target else None
         if self.mode in ("ring", "exponent"):
@@ -1111,7 +1196,6 @@ class Executor:
                 return st, r
         if target in self.summaries:
             return st, self.summaries[target](self, st, args)
-        fn = self.prog.fns[target]
         pc0 = st.pc
         st2, val = self._invoke(st, fn, args, subst, gargs)
         if st2 is None:
@@ -1151,17 +1235,20 @@ class Executor:
 
     # ---- name resolution ---------------------------------------------------------------------------------------------
     def resolve(self, func, args, fr):
-        """callee path as printed in a call terminator -> (MIR function name, type substitution, generic args)"""
+        """callee path as printed in a call terminator -> (Fn, type substitution, generic args)"""
         prog = self.prog
-        if func in prog.fns:
-            return func, {}, []
+        crate = fr.fn.crate
+        f = prog.fn(func, crate)
+        if f is not None:
+            return f, {}, []
         gargs = []
         base = func
         m = re.match(r"^(.*)::<(.*)>$", func)
         if m and balanced(m.group(1)):
             base, gargs = m.group(1), split_top(m.group(2))
-            if base in prog.fns:
-                return base, {}, gargs
+            f = prog.fn(base, crate)
+            if f is not None:
+                return f, {}, gargs
         # <T as Trait>::method
         m = re.match(r"^<(.+) as ([^>]+?(?:<.*>)?)>::(\w+)$", base)
         if m:
@@ -1177,13 +1264,24 @@ class Executor:
                     targs = str(len(args[0].items))
                 else:
                     targs = None
-            name = prog.find(fld, tname, meth, targs=targs, type_=tyl if fld else None) if fld else None
-            if name is None and fld and targs is not None:
-                name = prog.find(fld, tname, meth, targs=None, type_=tyl)
+            name = None
+            me = re.match(r"^(QuadExtension|CubeExtension)<(.+)>$", ty)
+            if me:
+                # generic wrapper impls live in extensions/*.rs with type parameter B
+                nm2 = prog.find(None, tname, meth, targs=(targs.replace(lastseg(me.group(2)), "B") if targs else None), type_=me.group(1) + "<B>")
+                if nm2:
+                    return prog.fns[nm2], {"B": me.group(2)}, gargs
+            if fld:
+                name = prog.find(fld, tname, meth, targs=targs, type_=tyl)
+                if name is None and targs is not None and tname not in ("From", "TryFrom", "Into", "TryInto"):
+                    name = prog.find(fld, tname, meth, targs=None, type_=tyl)
+                # blanket impls: <U as (Try)Into<T>>::(try_)into  ==  <T as (Try)From<U>>::(try_)from
+                if name is None and tname in ("Into", "TryInto") and targs:
+                    name = prog.find(fld, tname[:-4] + "From", "from" if tname == "Into" else "try_from", targs=tyl, type_=lastseg(targs))
             if name:
-                return name, {}, gargs
-            dflt = f"{tname}::{meth}"
-            if dflt in prog.fns and fld:
+                return prog.fns[name], {}, gargs
+            dflt = prog.fn(f"{tname}::{meth}", "math")
+            if dflt is not None and fld:
                 return dflt, {"Self": ty}, gargs
             raise NotEncodable("cannot resolve trait call " + func)
         # inherent method  path::Type::method
@@ -1193,16 +1291,14 @@ class Executor:
             if fld:
                 name = prog.find(fld, None, m.group(3), type_=m.group(2))
                 if name:
-                    return name, {}, gargs
-        # free function printed with another crate's path
-        tail = base.split("::")[-1]
-        cands = [n for n in prog.fns if n == tail or n.endswith("::" + tail)]
-        cands = [n for n in cands if "<impl at" not in n]
-        if len(cands) == 1 and "::" in base:
-            want = base.split("::")
-            have = cands[0].split("::")
-            if want[-len(have):] == have or have[-1] == want[-1] and len(have) == 1:
-                return cands[0], {}, gargs
+                    return prog.fns[name], {}, gargs
+        # free function printed with another crate's (longer) path: unique `::`-suffix match, own crate first
+        for c in [crate] + [x for x in prog.crate_fns if x != crate]:
+            cands = [n for n in prog.crate_fns[c] if "<impl at" not in n and (base == n or base.endswith("::" + n))]
+            if cands:
+                best = max(cands, key=len)
+                if sum(1 for n in cands if len(n) == len(best)) == 1:
+                    return prog.crate_fns[c][best], {}, gargs
         raise NotEncodable("cannot resolve call " + func)
 
     # ---- native models of core functions --------------------------------------------------------------------------------------
@@ -1230,6 +1326,32 @@ class Executor:
                     return st, Enum([(S.TRUE, "Ok", (self.cast(v, dst),))], "Result")
                 fits = S.ule(v.t, S.bvc(INT_BITS[src], (1 << INT_BITS[dst]) - 1))
                 return st, enum_norm([(fits, "Ok", (self.cast(v, dst),)), (S.Not(fits), "Err", (Opaque("TryFromIntError"),))], "Result")
+        m = re.match(r"^core::mem::size_of::<(\w+)>$", f)
+        if m and m.group(1) in INT_BITS:
+            return st, sc_int(INT_BITS[m.group(1)] // 8, "usize")
+        m = re.match(r"^(?:core::result::)?Result::<(.*)>::map::<.*>$", f)
+        if m and isinstance(args[0], Enum) and isinstance(args[1], FnItem):
+            alts = []
+            for g, v, flds in args[0].alts:
+                if v == "Ok":
+                    out = self.call(st, depth, args[1].name, [flds[0]])
+                    if out is None:
+                        raise NotEncodable("Result::map: mapped function panics")
+                    st, val = out
+                    alts.append((g, v, (val,)))
+                else:
+                    alts.append((g, v, flds))
+            return st, enum_norm(alts, "Result")
+        if re.match(r"^<Result<.*> as Try>::branch$", f) and isinstance(args[0], Enum):
+            alts = []
+            for g, v, flds in args[0].alts:
+                if v == "Ok":
+                    alts.append((g, "Continue", flds))
+                else:
+                    alts.append((g, "Break", (Enum([(S.TRUE, "Err", (Opaque("error payload"),))], "Result"),)))
+            return st, enum_norm(alts, "ControlFlow")
+        if re.match(r"^<Result<.*> as FromResidual<.*>>::from_residual$", f):
+            return st, Enum([(S.TRUE, "Err", (Opaque("error payload"),))], "Result")
         if f == "<core::ops::Range<usize> as IntoIterator>::into_iter" or f == "<std::ops::Range<usize> as IntoIterator>::into_iter":
             return st, args[0]
         if re.match(r"^<(core|std)::ops::Range<usize> as Iterator>::next$", f):
@@ -1335,6 +1457,20 @@ class Executor:
                 out = S.bvmul(out, t[0])
             return Sc(out, ty)   # wrapping; the overflow check of `pow` is not modelled -> only for constants
         raise NotEncodable(f"core::num::<impl {ty}>::{op}")
+
+
+def eff_width(t):
+    """number of low bits a machine term can occupy by construction (zero-extension, constant right shift, mask, constant)"""
+    n = t.sort[1]
+    if t.op == "const":
+        return max(t.p.bit_length(), 1)
+    if t.op == "zext":
+        return eff_width(t.args[0])
+    if t.op == "bvlshr" and S.isconst(t.args[1]):
+        return max(eff_width(t.args[0]) - t.args[1].p, 1) if t.args[1].p < n else 1
+    if t.op == "bvand":
+        return min(eff_width(t.args[0]), eff_width(t.args[1]))
+    return n
 
 
 BINOPS = {"Add", "Sub", "Mul", "Div", "Rem", "BitAnd", "BitOr", "BitXor", "Shl", "Shr", "Lt", "Le", "Gt", "Ge", "Eq", "Ne",
